@@ -291,6 +291,77 @@ func (g *Gen) CoroutineProgram() *Chunk {
 			CallSN("emit", Str("go-api-yield"), CallN("goresume", Fn([]string{"a"}, false, Blk(&SCall{Call: co("yield", N("a"), Str("y"))}, Return(Num(0)))), Num(9))))
 		g.cover("co:go-api")
 	}
+	if g.R.Intn(6) == 0 {
+		yield := func(args ...Expr) Expr { return co("yield", args...) }
+		if g.R.Intn(3) == 0 {
+			yield = func(args ...Expr) Expr { return CallN("hosty", args...) }
+			g.cover("co:host-function-yields")
+		}
+		max := Num(float64(3 + g.R.Intn(4)))
+		switch g.R.Intn(7) {
+		case 0: // the body ends in a tail-position yield: the last resume's values are its results
+			b.Stmts = append(b.Stmts, CallSN("emit", Str("drive-tail"), CallN("godrive", Fn([]string{"a"}, false, Blk(
+				Local1("b", yield(Bin("+", N("a"), Num(1)))), Return(yield(Bin("+", N("b"), Num(1)), Str("t"))))), max, Num(1))))
+		case 1:
+			b.Stmts = append(b.Stmts, CallSN("emit", Str("drive-plain"), CallN("godrive", Fn([]string{"a", "b"}, false, Blk(
+				&SLocal{Names: []string{"c", "d"}, Exprs: []Expr{yield(N("a"), N("b"))}}, CallSN("emit", Str("in"), N("c"), N("d")), Return(N("d"), N("c"), N("a")))), max, Num(1), Num(2))))
+		case 2: // no values at all
+			b.Stmts = append(b.Stmts, CallSN("emit", Str("drive-none"), CallN("godrive", Fn(nil, false, Blk(&SCall{Call: yield()}, Return())), max)),
+				CallSN("emit", Str("drive-tail-none"), CallN("godrive", Fn(nil, false, Blk(Return(yield()))), max)))
+		case 3: // fails after a yield
+			b.Stmts = append(b.Stmts, CallSN("emit", Str("drive-err"), CallN("godrive", Fn(nil, false, Blk(&SCall{Call: yield(Num(1))}, CallSN("error", &ETable{}))), max)))
+		case 4: // left suspended after the budget of steps
+			b.Stmts = append(b.Stmts, CallSN("emit", Str("drive-cut"), CallN("godrive", Fn(nil, false, Blk(
+				&SNumFor{Var: "i", Start: Num(1), Limit: Num(10), Body: Blk(&SCall{Call: yield(N("i"))})})), Num(3))))
+		case 5: // a yield where the interpreter loop was entered from Go is refused, for host functions too
+			b.Stmts = append(b.Stmts,
+				Local1("hco", co("create", Fn(nil, false, Blk(
+					CallSN("emit", Str("h1"), CallN("pcall", N("hosty"), Num(1))),
+					CallSN("emit", Str("h2"), CallN("hosty", Num(2))),
+					&SGenFor{Names: []string{"v"}, Exprs: []Expr{N("hosty"), Num(1), Num(2)}, Body: Blk(&SBreak{})},
+					Return(Str("end")))))),
+				CallSN("emit", Str("hco1"), co("resume", N("hco"))),
+				CallSN("emit", Str("hco2"), co("resume", N("hco"), Str("r"))),
+				CallSN("emit", Str("hco3"), co("status", N("hco")), co("resume", N("hco"))))
+			g.cover("co:host-yield-across-boundary")
+		default: // the Go API refuses coroutines that are not suspended
+			b.Stmts = append(b.Stmts,
+				&SLocal{Names: []string{"gouter"}},
+				Assign1(N("gouter"), co("create", Fn(nil, false, Blk(
+					Local1("ginner", co("create", Fn(nil, false, Blk(CallSN("emit", Str("inner"), CallN("gores", N("gouter"), Num(1))), Return(Str("inner-done")))))),
+					CallSN("emit", Str("res-inner"), co("resume", N("ginner"))),
+					CallSN("emit", Str("self"), CallN("gores", N("gouter"))),
+					Local1("x", co("yield", Num(5))),
+					CallSN("emit", Str("x"), N("x")),
+					Return(Str("outer-done")))))),
+				CallSN("emit", Str("gouter1"), co("resume", N("gouter"))),
+				CallSN("emit", Str("gouter2"), CallN("gores", N("gouter"), Num(7))),
+				CallSN("emit", Str("gouter3"), CallN("gores", N("gouter")), co("status", N("gouter"))))
+			g.cover("co:go-api-refusals")
+		}
+		g.cover("co:go-api-drive")
+	}
+	// a refused resume through the other entry point does not change how the
+	// running coroutine reports its own failure afterwards
+	if g.R.Intn(8) == 0 {
+		b.Stmts = append(b.Stmts,
+			Local1("rw", co("wrap", Fn(nil, false, Blk(
+				CallSN("emit", Str("self-resume"), co("resume", co("running"))),
+				Local1("child", co("create", Fn([]string{"p"}, false, Blk(CallSN("emit", Str("child-resumes-parent"), co("resume", N("p"))))))),
+				CallSN("emit", Str("child"), co("resume", N("child"), co("running"))),
+				CallSN("error", Str("Ewrapped")))))),
+			CallSN("emit", Str("wrap-after-refused"), CallN("pcall", N("rw"))),
+			// the thread behind a wrap function resumed by coroutine.resume calls its own wrap function
+			&SLocal{Names: []string{"rw2", "rth"}},
+			Assign1(N("rw2"), co("wrap", Fn(nil, false, Blk(
+				Assign1(N("rth"), co("running")),
+				&SCall{Call: co("yield", Num(1))},
+				CallSN("emit", Str("own-wrap"), &EParen{X: CallN("pcall", N("rw2"))}), // (a wrap function may add a position to the refusal)
+				CallSN("error", Str("Eresumed")))))),
+			CallSN("emit", Str("rw2-first"), Call(N("rw2"))),
+			CallSN("emit", Str("resume-after-refused"), CallN("pcall", Dot(N("coroutine"), "resume"), N("rth"))))
+		g.cover("co:refused-resume-then-failure")
+	}
 	// many contained failures of wrap functions leave nothing behind: afterwards coroutines work as before
 	if g.R.Intn(10) == 0 {
 		n := []int{199, 201, 250, 420}[g.R.Intn(4)]
